@@ -132,8 +132,14 @@ def gen_cases(rng, tier):
                                   "model": rng.choice(["VSS_BMIX", "HELAMP", "PHSP", "SSD_CP"]), "params": params(), "label": False})
             blocks.append(["Decay", m, lines])
         extra = []
-        if rng.random() < 0.4 and mothers:
-            extra.append(["CopyDecay", "MyCopy", rng.choice(mothers)])
+        if rng.random() < 0.5 and mothers:
+            srcm = rng.choice(mothers)
+            extra.append(["CopyDecay", "MyCopy", srcm])
+            if rng.random() < 0.4:
+                extra.append(["CopyDecay", "MyCopy2", srcm])           # two copies of one source
+            if rng.random() < 0.4:
+                extra.append(["ChargeConj", "MyCopy", "MyantiCopy"])   # a copy as the source of a CDecay
+                extra.append(["CDecay", "MyantiCopy"])
         if rng.random() < 0.4:
             src = rng.choice(mothers)
             extra.append(["CDecay", "Myanti" + src.replace("/", "")])
